@@ -1,7 +1,7 @@
 (* C08/Examples.v — non-vacuity: concrete values through the models. *)
 From Coq Require Import List NArith ZArith Bool Lia.
 From Common Require Import Bytes Outcome.
-From C08 Require Import Model ModelCD ModelLL ModelSub ModelSub2 ModelFL.
+From C08 Require Import Model ModelCD ModelLL ModelSub ModelSub2 ModelFL ModelGDEF.
 Import ListNotations.
 Local Open Scope N_scope.
 
@@ -166,6 +166,15 @@ Example gpos21_example :
   match M_gpos21_encode gp21 with
   | Ok b => M_gpos21_read b 0 = Ok [(3, [(7, (vr1, None)); (9, (Some vr_zero, None))]); (5, [(7, (vr1, None))])] /\
             M_gpos21_len gp21 = Ok (lenN b)
+  | _ => False
+  end.
+Proof. vm_compute. split; reflexivity. Qed.
+
+(* ---- GDEF ---- *)
+Definition gd : gdef := {| g_gc := Some [(3, 1); (4, 3)]; g_mac := None; g_sets := Some [[4; 5]; []] |}.
+Example gdef_example :
+  match M_gdef_encode gd with
+  | Ok b => M_gdef_read b = Ok gd /\ lenN b = 14 + 10 + 12 + 8 + 4
   | _ => False
   end.
 Proof. vm_compute. split; reflexivity. Qed.
